@@ -549,7 +549,22 @@ func (sc *mgScenario) Subscribe(stream gpb.GNMI_SubscribeServer) error {
 			return ctx.Err()
 		}
 		if j < len(a.msgs) {
-			if err := stream.Send(mgResponse(a.msgs[j], j)); err != nil {
+			resp := mgResponse(a.msgs[j], j)
+			if u := resp.GetUpdate(); u != nil && j%2 == 1 {
+				// A device need not echo the name it is managed under: every other update names ANOTHER
+				// target in its prefix (a managed one when there is one).  Callbacks are attributed to the
+				// stream's own target whatever the message says (seeded change c13_seed9 took the name for
+				// the Update callback from the prefix: a callback outside that target's session, and after
+				// its Remove).
+				other := "ghost"
+				for name := range sc.envs {
+					if name != e.name && (other == "ghost" || name < other) {
+						other = name
+					}
+				}
+				u.Prefix = &gpb.Path{Target: other}
+			}
+			if err := stream.Send(resp); err != nil {
 				return err
 			}
 		}
